@@ -36,6 +36,7 @@ def _envs():
     from rl4co.envs.routing.pctsp.env import PCTSPEnv
     from rl4co.envs.routing.pdp.env import PDPEnv
     from rl4co.envs.routing.sdvrp.env import SDVRPEnv
+    from rl4co.envs.routing.tsp.env import TSPEnv
 
     return locals()
 
@@ -273,4 +274,53 @@ C05_CANARIES = {
     "sdvrp_full_early": _swap(E["SDVRPEnv"], "get_action_mask", _sdvrp_full_early, static=True),
     "mtvrp_open_counts_return": _swap(E["MTVRPEnv"], "get_action_mask", _mtvrp_open_counts_return, static=True),
     "mtsp_no_second_agent": _swap(E["MTSPEnv"], "_step", _mtsp_no_second_agent, static=True),
+}
+
+
+# ---- C06 (checkers) ------------------------------------------------------------------------------
+def _swallow(substr):
+    """checker that no longer enforces the assertion whose message contains substr"""
+
+    def make(orig):
+        def mutant(*a, **k):
+            try:
+                return orig(*a, **k)
+            except AssertionError as e:
+                if substr in str(e):
+                    return None
+                raise
+
+        return mutant
+
+    return make
+
+
+def _cvrp_checker_tight(orig):
+    """rejects exactly-full vehicles: demand inflated by 1e-4 relative before the capacity sum"""
+
+    def mutant(td, actions):
+        td2 = td.clone()
+        td2["demand"] = td["demand"] * (1 + 1e-4) + 2e-5
+        return orig(td2, actions)
+
+    return mutant
+
+
+def _tsp_checker_first_node(orig):
+    """rejects valid tours that do not start at node 0 (a tour is a cycle: any rotation is valid)"""
+
+    def mutant(td, actions):
+        orig(td, actions)
+        assert (actions[:, 0] == 0).all(), "tour must start at node 0"
+
+    return mutant
+
+
+C06_CANARIES = {
+    "cvrp_capacity_unchecked": _swap(E["CVRPEnv"], "check_solution_validity", _swallow("capacity"), static=True),
+    "cvrp_rejects_full_vehicle": _swap(E["CVRPEnv"], "check_solution_validity", _cvrp_checker_tight, static=True),
+    "tsp_rejects_rotations": _swap(E["TSPEnv"], "check_solution_validity", _tsp_checker_first_node, static=True),
+    "pdp_precedence_unchecked": _swap(E["PDPEnv"], "check_solution_validity", _swallow("pick-up")),
+    "op_length_unchecked": _swap(E["OPEnv"], "check_solution_validity", _swallow("Max length"), static=True),
+    "pctsp_duplicates_unchecked": _swap(E["PCTSPEnv"], "check_solution_validity", _swallow("Duplicates"), static=True),
 }
